@@ -395,6 +395,8 @@ func alphaNorm(s string) string {
 
 // T6: the two implementations of the transposed-index computation (Dense.transposeIndex,
 // used by the in-place transpose, and the exported TransposeIndex) accumulate the same sum.
+const t6Want = "range p0 as @r\n  l0 = (l0 + (p1[@r] * l1[p0[@r]]))\n"
+
 func T6(rc *RC) {
 	rc.S.Declare("T6", "sibling agreement: Dense.transposeIndex and TransposeIndex accumulate oldCoord[pattern[k]] * newStrides[k] by alpha-equivalent loops", 1)
 	var forms []string
@@ -405,10 +407,17 @@ func T6(rc *RC) {
 			return
 		}
 		_, tree := sCanon(rc, fi)
+		// the accumulation loop: the loop of the canonical accumulation form if there is one, else the
+		// last loop of the function (the sum is the last step; a coordinate decomposition written out
+		// before it - the column-major branch added by the fix of finding 93 - is not the sum)
 		var loopTxt string
 		for _, lp := range ir.FindLoops(tree) {
-			loopTxt = ir.Render([]*ir.Node{lp})
-			break
+			txt := ir.Render([]*ir.Node{lp})
+			if alphaNorm(txt) == t6Want {
+				loopTxt = txt
+				break
+			}
+			loopTxt = txt
 		}
 		if loopTxt == "" {
 			rc.S.Undec("T6", key, rc.P.Pos(fi.Decl.Pos()), "no accumulation loop found")
@@ -417,7 +426,7 @@ func T6(rc *RC) {
 		forms = append(forms, alphaNorm(loopTxt))
 		poss = append(poss, rc.P.Pos(fi.Decl.Pos()))
 	}
-	want := "range p0 as @r\n  l0 = (l0 + (p1[@r] * l1[p0[@r]]))\n"
+	want := t6Want
 	switch {
 	case forms[0] != forms[1]:
 		rc.S.Viol("T6", "transposeIndex~TransposeIndex", poss[0], fmt.Sprintf("the two transposed-index computations differ:\n Dense.transposeIndex: %s\n TransposeIndex:       %s", strings.ReplaceAll(forms[0], "\n", " "), strings.ReplaceAll(forms[1], "\n", " "))).Sig = forms[0] + " <> " + forms[1]
